@@ -195,6 +195,54 @@ def worker(chunk, seed, tier):
     return part.result()
 
 
+def sequence_worker(chunk, seed, tier):
+    """The same object dumped to two formats in a row (conversions allowed): the second file must be the file a fresh,
+    identically built object gives, and the object must still be unchanged - nothing may be remembered from the first dump."""
+    from iodata import dump_one
+    from mc.core import Part, make_scratch
+
+    part = Part(seed, tier)
+    tmp = make_scratch()
+    try:
+        for case, first, second, modify in chunk:
+            part.count()
+            info = {"kind": "wf-sequence", "first": first, "second": second, "modified_between": modify, **case}
+            part.nontrivial(repr(info))
+            try:
+                obj, _ = wfn.build(case, second, seed)
+                twin, _ = wfn.build(case, second, seed)
+            except wfn.Infeasible:
+                continue
+
+            def dump(o, target, name):
+                path = str(tmp / (name + "_" + wfn.TARGETS[target]))
+                with warnings.catch_warnings():
+                    warnings.simplefilter("ignore")
+                    try:
+                        dump_one(o, path, allow_changes=True)
+                    except Exception as exc:  # noqa: BLE001
+                        return f"{type(exc).__name__}"
+                with open(path, "rb") as fh:
+                    return fh.read()
+
+            dump(obj, first, "a")
+            if modify:
+                # rebind the exponents of the first shell of both objects to new (equal) arrays between the two dumps
+                for o in (obj, twin):
+                    o.obasis.shells[0].exponents = np.array(o.obasis.shells[0].exponents) * 1.5
+            got = dump(obj, second, "b")
+            want = dump(twin, second, "c")
+            ok = got == want
+            part.outcome("sequence", "same-as-fresh-object" if ok else "DIFFERS")
+            if not ok:
+                part.violation("contract", f"{second}:dump-depends-on-earlier-dump:after-{first}" + (":basis-modified-between" if modify else ""), info,
+                               f"dump to {second} after a dump of the same object to {first}{' and a change of the basis' if modify else ''} gives "
+                               f"{got if isinstance(got, str) else str(len(got)) + ' bytes'}, a fresh identical object gives {want if isinstance(want, str) else str(len(want)) + ' bytes'}")
+    finally:
+        shutil.rmtree(tmp, ignore_errors=True)
+    return part.result()
+
+
 def input_cases(ctx):
     from iodata import IOData, write_input
 
@@ -267,6 +315,8 @@ def run(ctx):
             jobs.append(("wf", target, case, True, 2, False))
             jobs.append(("wf", target, case, True, 1, True))
     pmap(ctx, worker, jobs, chunk=16)
+    seq = [(dict(default, contraction=c, shellset=ss), a, b, m) for c in con for ss in ("+d-cart", "sp") for a in wfn.TARGETS for b in wfn.TARGETS for m in (False, True) if a != b or m]
+    pmap(ctx, sequence_worker, seq, chunk=16)
     input_cases(ctx)
     ctx.cov.update(dbe_k=k, jobs=len(jobs), formats=sorted(specs))
     ctx.exhaustive = True
